@@ -626,12 +626,13 @@ func (e *Env) call(n *ast.CallExpr) *Val {
 			// typed unbounded form: forall(x, T, body) with T a pointer or map type: x ranges over the
 			// objects of that type that exist in the current state (non-nil references below the allocation frontier)
 			t := e.typeExpr(n.Args[1])
+			rtyped(t) // registers the map components the quantifier talks about
 			c.nsym++
 			qv := fmt.Sprintf("q_%s_%d", id.Name, c.nsym)
 			c.quant++
 			body := e.with(id.Name, &Val{T: t, Term: qv}).eval(n.Args[2])
 			c.quant--
-			rng := and(app("<", "0", qv), app("<", qv, c.next(e.st)))
+			rng := and(app("<", "0", qv), app("<", qv, c.next(e.st)), eq(app("rtype", qv), num(int64(c.prog.typeTag(t)))))
 			if fname == "forall" {
 				return boolVal(fmt.Sprintf("(forall ((%s Int)) %s)", qv, implies(rng, body.Term)))
 			}
@@ -641,6 +642,13 @@ func (e *Env) call(n *ast.CallExpr) *Val {
 			fail("%s(i, lo, hi, body)", fname)
 		}
 		lo, hi := arg(1), arg(2)
+		if lo.Term == hi.Term {
+			// empty range
+			if fname == "forall" {
+				return boolVal("true")
+			}
+			return boolVal("false")
+		}
 		c.nsym++
 		qv := fmt.Sprintf("q_%s_%d", id.Name, c.nsym)
 		c.quant++
